@@ -103,8 +103,14 @@ def check(case, vals=None):
             vars_, status = progrun.build_or_reject(prog)
             if vars_ is None:
                 return status, [], []
-            for v in vars_:
-                v.chunks  # advertised layout is fixed under the construction-time configuration
+            try:
+                for v in vars_:
+                    v.chunks  # advertised layout is fixed under the construction-time configuration
+            except NotImplementedError:
+                return "rejected:NotImplementedError", [], []
+            except Exception as e:
+                # no layout is advertised at all: a build failure like any other (counted, not judged here)
+                return "rejected:" + util.exc_bucket("build-chunks", e), [], []
         with dask.config.set({"array.optimize-graph": og, **cfg_graph}):
             L = len(prog["leaves"])
             for k in range(L, len(vars_)):
